@@ -162,6 +162,7 @@ def main(tier):
     wroots = [P.func(nm) for nm in C_API] + [f for (nm, npar) in CPP_API for f in P.funcs_named("wrapper_cpp::WorldBuilderWrapper::" + nm) if len(f.params) == npar]
     allow = {(P.func(nm).qn, o) for nm, (_, _, o, _) in C_API.items() if o is not None}
     pure.run(P, rep, wroots, rule="PURE.wrappers", allow_param_writes=allow)
+    pure.no_swallow(P, rep, wroots)
     rep.explanation = ("Forwarding analysis of the 10 extern \"C\" functions and the 8 members of WorldBuilderWrapper: callee, "
                        "argument provenance (identity forms of the wrapper's parameters in declared order), result path, "
                        "handle round trip and new/delete pairing.")
